@@ -109,6 +109,28 @@ func (e *Exec) fpConvert(st *State, x *Term, S, D types.Type) *Term {
 		// defined (and unspecified in SMT-LIB as well): nothing can be proved about it
 		w := intWidth(D)
 		e.assumed["float->int conversion of out-of-range values is implementation-defined (left unspecified)"] = true
+		{
+			// remembered for conformance runs, which sample only inputs on which the conversion
+			// is defined: lo <= x < 2^k (not NaN)
+			sw := intWidth(S)
+			pow := func(k int) *Term {
+				if sw == 32 {
+					return e.fpFromBits(c.Const(32, uint64(127+k)<<23))
+				}
+				return e.fpFromBits(c.Const(64, uint64(1023+k)<<52))
+			}
+			neg := func(k int) *Term {
+				if sw == 32 {
+					return e.fpFromBits(c.Const(32, uint64(1)<<31|uint64(127+k)<<23))
+				}
+				return e.fpFromBits(c.Const(64, uint64(1)<<63|uint64(1023+k)<<52))
+			}
+			if isSigned(D) {
+				e.convRange = append(e.convRange, c.And(c.FPop("fp.geq", Bool, x, neg(w-1)), c.FPop("fp.lt", Bool, x, pow(w-1))))
+			} else {
+				e.convRange = append(e.convRange, c.And(c.FPop("fp.gt", Bool, x, neg(0)), c.FPop("fp.lt", Bool, x, pow(w))))
+			}
+		}
 		if isSigned(D) {
 			return c.FPop(fmt.Sprintf("(_ fp.to_sbv %d) RTZ", w), BV(w), x)
 		}
